@@ -33,6 +33,7 @@ class Sched:
         self.turn = None
         self.trace = []
         self.counting = None       # list to append point kinds to (sequential dry run)
+        self.free = None           # index of a thread that currently runs to completion without stopping at points
 
     def point(self, kind):
         if self.counting is not None:
@@ -40,7 +41,7 @@ class Sched:
         if not self.active:
             return
         tid = self.tids.get(threading.get_ident())
-        if tid is None:
+        if tid is None or self.free == tid:
             return
         with self.cv:
             self.waiting[tid] = kind
@@ -89,9 +90,12 @@ class Sched:
             order = list(schedule)
             k = 0
             while True:
+                run_out = False
                 if k < len(order):
                     tid = order[k]
                     k += 1
+                    if tid < 0:                         # entry -(i+1): thread i runs to completion from where it stands
+                        tid, run_out = -tid - 1, True
                 else:                                   # schedule exhausted: drain in index order
                     rest = [i for i in range(n) if i not in self.done]
                     if not rest:
@@ -107,9 +111,19 @@ class Sched:
                 if tid not in self.waiting:             # blocked inside the implementation: cannot run now
                     infeasible = True
                     continue
+                if run_out:
+                    self.free = tid
                 self.turn = tid
                 self.cv.notify_all()
                 self._wait(lambda: self.turn is None)
+                if run_out:
+                    t0 = time.time()
+                    while tid not in self.done:
+                        self.cv.wait(0.05)
+                        if time.time() - t0 > 120:
+                            raise Deadlock("thread %d did not finish its free run" % tid)
+                    self.free = None
+                    continue
                 t0 = time.time()
                 while not ready(tid):
                     self.cv.wait(0.05)
@@ -175,6 +189,10 @@ def plain(res):
 def run_ops(ops, slots):
     out = []
     for c in ops:
+        if c["api"] == "mutate":                 # harness-side: the caller edits its own datum object
+            W.mutate(c)
+            out.append(dict(st="ok", val="None", extra=None))
+            continue
         rc = W.resolve(c, slots)
         res, obj = W.exec_call(rc)
         if "$out" in c:
@@ -216,6 +234,9 @@ def mode_footprint(job):
 
 def mode_count(job):
     TRACE.update(tuple(x) for x in job.get("trace", []))
+    TRACE_CALLS.update(tuple(x) for x in job.get("trace_calls", []))
+    if job.get("recursion_limit"):
+        sys.setrecursionlimit(job["recursion_limit"])
     slots = setup_slots(job["setup"])
     has_ctx = install()
     seq, counts = [], []
@@ -225,7 +246,7 @@ def mode_count(job):
             install()
         pts = []
         SCHED.counting = pts
-        if TRACE:
+        if TRACE or TRACE_CALLS:
             sys.settrace(tracer)
         try:
             seq.append(run_ops(ops, slots))
@@ -236,7 +257,8 @@ def mode_count(job):
     return dict(has_module_context=has_ctx, sequential=seq, points=counts)
 
 
-TRACE = set()          # {(file basename, function name)}: every LINE of these functions is an instrumented point
+TRACE = set()          # {(file basename, function name or "*")}: every LINE of these functions is an instrumented point
+TRACE_CALLS = set()    # {(file basename, function name)}: every CALL of these functions is an instrumented point
 
 
 def tracer(frame, event, arg):
@@ -245,7 +267,11 @@ def tracer(frame, event, arg):
     if event != "call":
         return None
     co = frame.f_code
-    if (os.path.basename(co.co_filename), co.co_name) not in TRACE:
+    base = os.path.basename(co.co_filename)
+    if (base, co.co_name) in TRACE_CALLS:
+        SCHED.point("call:" + co.co_name)
+        return None
+    if (base, co.co_name) not in TRACE and (base, "*") not in TRACE:
         return None
     name = co.co_name
 
@@ -265,7 +291,7 @@ def run_threads(threads_ops, slots, schedule):
 
     def body(i):
         SCHED.tids[threading.get_ident()] = i
-        if TRACE:
+        if TRACE or TRACE_CALLS:
             sys.settrace(tracer)
         try:
             results[i] = run_ops(threads_ops[i], slots)
@@ -299,6 +325,10 @@ def one_schedule(job, slots, sch):
 
 def mode_forced(job):
     TRACE.update(tuple(x) for x in job.get("trace", []))
+    TRACE_CALLS.update(tuple(x) for x in job.get("trace_calls", []))
+    if job.get("recursion_limit"):
+        sys.setrecursionlimit(job["recursion_limit"])
+        threading.stack_size(64 * 1024 * 1024)
     slots = setup_slots(job["setup"])
     out = []
     for sch in job["schedules"]:
